@@ -2,7 +2,7 @@
    Model: Schc.select_fds used by compress and decompress, Schc.rule_matches (filter by the packet
    direction).  Only statements; proofs in theories/SchcRules.v (selection) and SchcRoundtrip.v (round trip). *)
 From Coq Require Import ZArith List Bool.
-From MS Require Import PyBase Bits Schc SchcSpec SchcRules SchcRoundtrip.
+From MS Require Import PyBase Buffer Bits BufferAbs Schc SchcSpec SchcRules SchcRoundtrip SchcBytes SchcRefine ManagerBytes BytesC08C17C18.
 Import ListNotations.
 Open Scope Z_scope.
 
@@ -20,6 +20,21 @@ Theorem c18_roundtrip ct d pd r : pd_dir pd = d -> rule_ok_dec ct d pd r -> spec
             decompress ct s r (Some d) = Ok (concat (map f_val (pd_fields pd)) ++ pd_payload pd).
 Proof. exact (c01_roundtrip_nocompute ct d pd r). Qed.
 
+(* ---- the same at the byte level (SchcBytes / ManagerBytes, the functions compared raw with the code) ---- *)
+Theorem c18_select_bytes d fds :
+  bselect_fds (Some d) fds = filter (fun f => dir_eqb (br_dir f) d || dir_eqb (br_dir f) Bi) fds.
+Proof. exact (c18b_select d fds). Qed.
+Theorem c18_matcher_bytes pd r : canon_pdesc pd -> canon_rule r -> rule_typed (abs_rule abs r) = true ->
+  brule_matches pd r = Ok (spec_rule_applies (abs_pdesc abs pd) (abs_rule abs r)).
+Proof. exact (c18b_matcher_applies pd r). Qed.
+Theorem c18_roundtrip_bytes ct d pd r : canon_pdesc pd -> canon_rule r -> bpd_dir pd = d ->
+  rule_ok_dec ct d (abs_pdesc abs pd) (abs_rule abs r) ->
+  spec_rule_applies (abs_pdesc abs pd) (abs_rule abs r) = true ->
+  bno_compute d r = true ->
+  exists x y, bcompress pd r (Some d) = Ok x /\ canon x /\
+              bdecompress x r (Some d) = Ok y /\ canon y /\ abs y = bpacket_bits pd.
+Proof. exact (c18b_roundtrip ct d pd r). Qed.
+
 (* non-vacuity: a field with an Up descriptor (equal/not-sent) and a Dw descriptor (ignore/value-sent), downlink packet *)
 Example c18_ex :
   let up := mkrfd (mkfid P_Other 1) 2 0 Up (TVbuf [true;true]) MO_equal NotSent in
@@ -33,3 +48,6 @@ Proof. vm_compute. repeat split; reflexivity. Qed.
 Print Assumptions c18_select.
 Print Assumptions c18_matcher.
 Print Assumptions c18_roundtrip.
+Print Assumptions c18_select_bytes.
+Print Assumptions c18_matcher_bytes.
+Print Assumptions c18_roundtrip_bytes.
